@@ -40,7 +40,7 @@ def run(ctx):
     r1(ctx, lib, floor=0 if auto else 2)
     if auto:
         # the fixed-prefix text and everything that had to agree with it (escape flag, stop set, case folding of both sides, optional makers) is gone
-        m_ = lib.body('regex::Regex::is_partial_match')
+        m_ = automaton_body(lib)
         for rid in ('C16.R2', 'C16.R12'):
             ctx.ok(rid, 'regex::Regex::is_partial_match|automaton', m_.where(), 'not applicable: there is no fixed-prefix scanner, the partial match is decided by the automaton of the expression (C16.R14)')
         r14(ctx, lib)
@@ -128,16 +128,30 @@ def r2(ctx, lib):
 
 def automaton_shape(lib):
     """partial matching is decided by feeding the candidate to an automaton of the expression (no fixed-prefix text)"""
+    return automaton_body(lib) is not None and lib.body('regex::Regex::get_fixed_prefix') is None
+
+
+def automaton_body(lib):
+    """the method of regex::Regex that steps the automaton: is_partial_match itself or the helper it delegates to"""
     m = lib.body('regex::Regex::is_partial_match')
-    return m is not None and bool(m.calls(r'dfa::DFA::next_state$')) and lib.body('regex::Regex::get_fixed_prefix') is None
+    if m is None:
+        return None
+    if m.calls(r'dfa::DFA::next_state$'):
+        return m
+    for k in m.calls(r'^regex::Regex::\w+$'):
+        hb = lib.body(k.path)
+        if hb is not None and hb.calls(r'dfa::DFA::next_state$'):
+            return hb
+    return None
 
 
 def r14(ctx, lib):
     """Partial match by automaton: same expression and options as the matcher, anchored, every byte fed, `false` only in the dead state."""
     rule = 'C16.R14'
     n = ctx.need_body(rule, 'regex::Regex::new')
-    m = ctx.need_body(rule, 'regex::Regex::is_partial_match')
-    if n is None or m is None:
+    pm = ctx.need_body(rule, 'regex::Regex::is_partial_match')
+    m = automaton_body(lib)
+    if n is None or m is None or pm is None:
         return
     P = m.path
     # (a) the automaton is built from the same expression and the same options as the regex that decides the full match
@@ -166,10 +180,24 @@ def r14(ctx, lib):
     it = m.calls(r'str::<impl str>::as_bytes$|str::<impl str>::bytes$')
     # (feeding only a beginning of the candidate is sound - the answer gets more conservative; feeding anything that is not a prefix of it is not)
     lim = m.calls(r'Iterator::(skip|step_by|skip_while|filter|filter_map|rev|map)$|slice.*::(split_at|last|split_off)$')
-    fed = bool(nx) and bool(it) and 2 in backslice(m, [it[0].args[0]]).params and any(k.bb == it[0].bb for k in backslice(m, [nx[0].args[-1]]).calls) and not lim
+    if it:
+        fed = bool(nx) and 2 in backslice(m, [it[0].args[0]]).params and any(k.bb == it[0].bb for k in backslice(m, [nx[0].args[-1]]).calls) and not lim
+    else:
+        # the candidate arrives as bytes already (&[u8] parameter): the byte handed to next_state comes from an iteration over that parameter
+        fed = bool(nx) and 2 in backslice(m, [nx[0].args[-1]]).params and 'u8' in m.local_ty(2) and not lim
+        pm_it = pm.calls(r'str::<impl str>::as_bytes$')
+        fed = fed and (m is pm or (bool(pm_it) and 2 in backslice(pm, [pm_it[0].args[0]]).params))
     ctx.check(fed, rule, P + '|every-byte-fed', (nx[0].where() if nx else m.where()), 'the bytes of the candidate are fed to the automaton from the beginning, in order', 'what is fed to the automaton is not a prefix of the candidate (bytes skipped, filtered, mapped or reversed)')
     # (c) `false` only in the dead state; everything that cannot be decided answers `true`
     falses = [(bi, st) for bi, blk in enumerate(m.blocks) if not blk['cleanup'] for st in blk['stmts'] if st['p'][0] == 0 and not st['p'][1] and const_bool(st['rv'].get('op', {})) is False]
+    optional = 'Option<bool>' in m.local_ty(0).replace('std::option::', '')
+    if optional:
+        # the helper answers Some(false) / Some(true) / None (undecidable); is_partial_match must turn None into `true`
+        falses = [(bi, st) for bi, blk in enumerate(m.blocks) if not blk['cleanup'] for st in blk['stmts'] if st['p'][0] == 0 and not st['p'][1]
+                  and st['rv']['k'] == 'agg' and st['rv'].get('variant') == 'Some' and st['rv']['ops'] and const_bool(st['rv']['ops'][0]) is False]
+        dflt = [c for c in pm.calls(r'Option::<T>::unwrap_or$|Option<.*>::unwrap_or$') if const_bool(c.args[1]) is True]
+        ctx.check(bool(dflt), rule, pm.path + '|undecidable-is-true', pm.where(), 'is_partial_match answers `true` when the automaton cannot decide (None)',
+                  'is_partial_match does not turn "cannot be determined" into `true`: a directory that may contain matches is pruned whenever the automaton gives up')
     dead = m.calls(r'LazyStateID::is_dead$|StateID::is_dead$|is_dead_state$')
     ok = bool(dead) and bool(falses)
     for bi, st in falses:
@@ -181,7 +209,7 @@ def r14(ctx, lib):
                     if tt is not None and (tt == bi or m.dominates(tt, bi)) and not m.dominates(ft, bi):
                         good = True
         ok = ok and good
-    nonconst = [st for blk in m.blocks if not blk['cleanup'] for st in blk['stmts'] if st['p'][0] == 0 and not st['p'][1] and const_bool(st['rv'].get('op', {})) is None]
+    nonconst = [st for blk in m.blocks if not blk['cleanup'] for st in blk['stmts'] if st['p'][0] == 0 and not st['p'][1] and const_bool(st['rv'].get('op', {})) is None] if not optional else []
     ctx.check(ok and not nonconst, rule, P + '|false-only-when-dead', (m.where(falses[0][1]['line']) if falses else m.where()), '`false` is returned only from the dead state of the automaton; a missing automaton, a full cache or a quit state answer `true`',
               'is_partial_match can answer `false` without the automaton being in its dead state: a directory that may contain matching paths is pruned')
     # the state that is tested is the one the last byte led to
